@@ -316,6 +316,18 @@ Example refcount_serialised_nonvacuous :
   rinv (mkR 0 false 0) [] /\ rsched_ok [] l = true /\ fst (rrun (mkR 0 false 0) [] l) = mkR 0 false 4.
 Proof. vm_compute. repeat split; reflexivity. Qed.
 
+(* the hypothesis [rsched_ok] is exactly "a thread drops only references it holds".  One unbalanced
+   hwloc_components_fini (an error path that releases a reference it never took: seeded C17h,
+   corpus/c17/shmem-write-unloaded-next-to-live-topology.case) and the statement fails: the registry is torn
+   down under another thread that still holds a reference *)
+Theorem unbalanced_fini_breaks_registry :
+  exists l, rsched_ok [] l = false /\ ~ rsafe (mkR 0 false 0) [] l.
+Proof.
+  exists [(0, RInit); (1, RInit); (0, RFini); (0, RFini); (1, RUse)].
+  split; [reflexivity|]. intro H. simpl in H.
+  destruct H as [_ [_ [_ [_ [_ [_ [_ [_ [H _]]]]]]]]]. specialize (H eq_refl). discriminate.
+Qed.
+
 (* every access of the reference count and the registry in the event model is ordered by the mutex protocol *)
 Theorem refcount_accesses_protected : forall s o e,
   In e (snd (run_op s o)) -> (e_loc e = LRefcount \/ e_loc e = LRegistry) -> e_prot e = true.
